@@ -141,7 +141,9 @@ def check_registry(ctx):
     """class name written → registry keyed by cls.__name__ → constructor(**fields)"""
     m = ctx.model
     isc = m.func(f"{DROP}.DropletBase.__init_subclass__")
-    reg = [s for s in ast.walk(isc.node) if isinstance(s, ast.Assign) and U(s.targets[0]) == "cls._subclasses[cls.__name__]" and U(s.value) == "cls"]
+    iv = view(m, isc)
+    reg = [s for s in iv.statements() if isinstance(s, ast.Assign) and isinstance(s.targets[0], ast.Subscript) and U(s.targets[0].value) == "cls._subclasses"
+           and U(iv.expand(s.targets[0].slice, s)) == "cls.__name__" and U(s.value) == "cls"]
     ctx.decide(len(reg) == 1, "IOAGREE", "registry:key", isc, "every droplet class registers itself under cls.__name__",
                "droplet classes are not registered as cls._subclasses[cls.__name__] = cls: the class name stored in files cannot be resolved")
     dfd = m.func(f"{DROP}.droplet_from_data")
